@@ -538,8 +538,17 @@ def rule_replicated_store(ctx: Ctx) -> None:
     prog = ctx.prog
     for q, op in (("ReplicatedStore.put", "replica.put"), ("ReplicatedStore.delete", "replica.delete")):
         fn = prog.func(RS, q)
-        lp = [s for s in walk_stmts(fn.node.body) if isinstance(s, ast.For) and path_of(s.iter) == "self._replicas"]
+        lp = [s for s in walk_stmts(fn.node.body) if isinstance(s, ast.For) and (path_of(s.iter) == "self._replicas" or unparse(s.iter).replace(" ", "") == "enumerate(self._replicas)")]
         ok = len(lp) == 1 and any(path_of(c.func) == op for c in calls_in(lp[0]))
+        # per replica and key, mutations land in the order they were started: the replica call is bracketed by taking a turn and giving it
+        # back on every exit (put and delete have different latencies — unordered, a later delete overtakes an earlier put on some replicas)
+        if ok:
+            turns = [s_ for s_ in walk_stmts(lp[0].body) if isinstance(s_, ast.Assign) and any(isinstance(y, ast.YieldFrom) and path_of(getattr(y.value, "func", None)) == "self._mutation_turn" for y in ast.walk(s_.value))]
+            dones = [t_ for t_ in walk_stmts(lp[0].body) if isinstance(t_, ast.Try) and any(path_of(k.func) == "self._mutation_done" for b_ in t_.finalbody for k in calls_in(b_))
+                     and any(path_of(k.func) == "next" or (isinstance(k.func, ast.Attribute) and k.func.attr in ("send", "__next__")) for b_ in t_.body for k in calls_in(b_))]
+            ordered = len(turns) == 1 and len(dones) == 1
+            ctx.ob("C17-5", "G2", fn, turns[0] if turns else lp[0], ordered, f"{q}: on each replica the operation waits for its turn among the mutations of the key and hands the turn on in a `finally` "
+                   "(same per-key order on every replica)")
         if ok:
             # no early exit from the replica loop (break / return); `continue` only inside the except clause
             for s in walk_stmts(lp[0].body):
@@ -590,7 +599,29 @@ def rule_merkle_tracks_store(ctx: Ctx) -> None:
     need(n >= 8, f"C17-4: expected >= 8 Merkle updates in LeaderNode, found {n}")
 
 
+def rule_conflict_only_for_distinct_versions(ctx: Ctx) -> None:
+    """C17-4: the resolver is asked only about two *different* writes neither of which dominates the other.  A version compared with itself
+    (every anti-entropy round carries the whole table) is not a conflict: a merging resolver would merge a write with itself, and with a
+    non-idempotent merge function values grow and the replicas never converge."""
+    prog = ctx.prog
+    n = 0
+    for q in ("LeaderNode._handle_replicate", "LeaderNode._handle_anti_entropy_request", "LeaderNode._handle_anti_entropy_response"):
+        fn = prog.func(ML, q)
+        ff = ctx.flow(fn)
+        for c in [k for k in calls_in(fn.node) if path_of(k.func) == "self._resolver.resolve"]:
+            n += 1
+            cn = node_of(ff.cfg, c)
+            bad = []
+            for p_ in _paths_to(ff, cn):
+                same = p_.decided(lambda t: t.startswith("_same_version(existing,"))
+                if same is not False:
+                    bad.append(p_.describe()[-100:])
+            ctx.ob("C17-4", "G1", fn, c, not bad, f"{q}: the conflict resolver runs only after `_same_version(existing, <incoming>)` was found false (and neither version dominates)")
+    need(n == 3, f"C17-4: expected 3 resolver calls in LeaderNode, found {n}")
+
+
 def run(ctx: Ctx) -> None:
+    ctx.guarded(rule_conflict_only_for_distinct_versions)
     ctx.guarded(rule_merkle_tracks_store)
     rule_primary_backup(ctx)
     rule_reordering(ctx)
@@ -602,6 +633,8 @@ def run(ctx: Ctx) -> None:
 
 
 MUTANTS = [
+    ("ml-same-version-is-a-conflict", ML, '            elif _vc_dominates(existing_vc, incoming_vc) or _same_version(existing, incoming):', "            elif _vc_dominates(existing_vc, incoming_vc):", "C17-4"),
+    ("replicated-delete-skips-turn", RS, "        for index, replica in enumerate(self._replicas):\n            turn = yield from self._mutation_turn(index, key)\n            try:\n                gen = replica.delete(key)", "        for index, replica in enumerate(self._replicas):\n            turn = SimFuture()\n            try:\n                gen = replica.delete(key)", "C17-5"),
     ("replicate-merkle-records-incoming-not-winner", ML, "                    yield from self._store.put(key, winner.value)\n                    self._merkle.update(key, winner.value)\n\n        return None", "                    yield from self._store.put(key, winner.value)\n                    self._merkle.update(key, incoming.value)\n\n        return None", "C17-4"),
     ("vcmerge-fallback-local-wins-ties", CR, "        return LastWriterWins().resolve(key, [a, b])", "        return b if a.timestamp < b.timestamp else a", "C17-4"),
     ("sync-waits-for-any", PB, "            if len(ack_futures) >= 2:\n                yield all_of(*ack_futures)", "            if len(ack_futures) >= 2:\n                from happysimulator.core.sim_future import any_of\n\n                yield any_of(*ack_futures)", "C17-1"),
@@ -637,10 +670,10 @@ MUTANTS = [
     ("craq-read-not-rechecked", CH, "            tail = self._craq_forward_target(key)\n            if tail is None:\n                if reply_future is not None:\n                    reply_future.resolve({\"status\": \"ok\", \"value\": value})\n                return None",
      "            if reply_future is not None:\n                reply_future.resolve({\"status\": \"ok\", \"value\": value})\n            return None", "C17-3"),
     ("ml-version-after-store-write", ML, "            if _vc_dominates(incoming_vc, existing_vc):\n                # Incoming is newer — apply\n                self._versions[key] = incoming\n                yield from self._store.put(key, value)", "            if _vc_dominates(incoming_vc, existing_vc):\n                # Incoming is newer — apply\n                yield from self._store.put(key, value)\n                self._versions[key] = incoming", "C17-4"),
-    ("ml-applies-dominated", ML, "            elif _vc_dominates(existing_vc, incoming_vc):\n                # Existing is newer — discard\n                pass", "            elif _vc_dominates(existing_vc, incoming_vc):\n                self._versions[key] = incoming\n                yield from self._store.put(key, value)", "C17-4"),
+    ("ml-applies-dominated", ML, "                # Existing is newer (or is this very write, seen before) — discard\n                pass", "                self._versions[key] = incoming\n                yield from self._store.put(key, value)", "C17-4"),
     ("ml-resolver-loser-stored", ML, "                if winner is not existing:\n                    self._versions[key] = winner\n                    yield from self._store.put(key, winner.value)\n                    self._merkle.update(key, winner.value)\n\n        return None\n\n    def _handle_anti_entropy(", "                if winner is not existing:\n                    self._versions[key] = winner\n                    yield from self._store.put(key, value)\n                    self._merkle.update(key, winner.value)\n\n        return None\n\n    def _handle_anti_entropy(", "C17-4"),
-    ("ml-ae-response-applies-concurrent-blindly", ML, "                elif not _vc_dominates(existing_vc, remote_vc):\n                    # Concurrent — resolve\n                    self._conflicts_detected += 1\n                    winner = self._resolver.resolve(key, [existing, remote_vv])\n                    self._conflicts_resolved += 1\n                    if winner is not existing:",
-     "                elif not _vc_dominates(existing_vc, remote_vc):\n                    # Concurrent — resolve\n                    self._conflicts_detected += 1\n                    winner = remote_vv\n                    self._conflicts_resolved += 1\n                    if winner is not existing:", "C17-4"),
+    ("ml-ae-response-applies-concurrent-blindly", ML, "                    # Concurrent — resolve\n                    self._conflicts_detected += 1\n                    winner = self._resolver.resolve(key, [existing, remote_vv])\n                    self._conflicts_resolved += 1\n                    if winner is not existing:",
+     "                    # Concurrent — resolve\n                    self._conflicts_detected += 1\n                    winner = remote_vv\n                    self._conflicts_resolved += 1\n                    if winner is not existing:", "C17-4"),
     ("ml-ae-request-existing-read-once", ML, ["        # Apply their data locally (reconcile)\n        for key, vdata in remote_versions.items():\n            remote_vv = VersionedValue(", "            )\n            existing = self._versions.get(key)\n            if existing is None:\n                self._versions[key] = remote_vv"],
      ["        # Apply their data locally (reconcile)\n        snapshot = dict(self._versions)\n        for key, vdata in remote_versions.items():\n            remote_vv = VersionedValue(", "            )\n            existing = snapshot.get(key)\n            if existing is None:\n                self._versions[key] = remote_vv"], "C17-4"),
     ("ml-dominates-weak", ML, "        if val_a > val_b:\n            any_gt = True\n    return all_geq and any_gt", "        if val_a > val_b:\n            any_gt = True\n    return all_geq", "C17-4"),
